@@ -159,6 +159,17 @@ CHECKS = {
                 note='ssthresh after a timeout is unspecified (adopted from the observation); CUBIC avoidance is checked by its '
                      'consequences only.',
                 ref='4/C17'),
+    'C20': dict(engine='K', what='kernel programs under virtualised wall-clock behaviours: bodies burning wall time, sleeps returning '
+                'early/late, monotonic() ticking per call, wall time passing before the first step, sync() at arbitrary points; '
+                'factors, initial times, strict on/off',
+                text='Seeded exploration: each generated program runs on Environment and on the real RealtimeEnvironment with '
+                     'onl.sim.rt.monotonic/sleep replaced by a scripted virtual wall clock; the canonical traces must be equal, '
+                     'every occurrence must be processed at wall time >= real_start + (t - initial_time)*factor (real_start '
+                     're-based by the harness at every sync()), and the strict error must be raised iff the wall clock is more '
+                     'than `factor` past the due instant when step() turns to the next occurrence.',
+                note='With a ticking clock the window between step entry and the first clock read is lenient; early sleeps always '
+                     'make some progress.',
+                ref='4/C20'),
 }
 
 ENGINES = [
